@@ -16,17 +16,18 @@ None == <<-1, -1>>
 Lost == <<-2, -2>>
 TsLess(a, b) == a[1] < b[1] \/ (a[1] = b[1] /\ a[2] < b[2])
 TsMax(a, b) == IF TsLess(a, b) THEN b ELSE a
-Handler(l, c, s) == IF ~s /\ ~TsLess(l, c) THEN <<l, IF l = c THEN <<l[1], l[2] + 1>> ELSE l>>
-                    ELSE <<TsMax(l, c), None>>
-Collect(c, rs) == LET S == {c} \cup {r \in rs : r # None /\ r # Lost}
-                  IN CHOOSE m \in S : \A x \in S : ~TsLess(m, x)
+MaxOf(S) == CHOOSE m \in S : \A x \in S : ~TsLess(m, x)
+Handler(lo, g, c, s) == LET ml == MaxOf({lo[d] : d \in g}) IN
+                        IF ~s /\ ~TsLess(ml, c) THEN <<[d \in g |-> lo[d]], IF ml = c THEN <<ml[1], ml[2] + 1>> ELSE ml>>
+                        ELSE <<[d \in g |-> TsMax(lo[d], c)], None>>
+Collect(c, rs) == MaxOf({c} \cup {r \in rs : r # None /\ r # Lost})
 AfterSync(e, m, s, cnt) == IF ~s /\ TsLess(e, m) THEN <<"again", <<m[1], m[2] + cnt>>>> ELSE <<"persist", m>>
 VARIABLES l, tr, loc, glo, issued, lastG, rq, bad
-(* rq: the request in flight: [on, n, floor, fresh, skip, cur, est, round, reply, expect] where expect is what the    *)
+(* rq: the request in flight: [on, n, floor, skip, cur, est, round, reps, got, expect] where expect is what the    *)
 (* next round / result must be: <<"round", skip, value>> | <<"result", value>> | <<"fresh">> | <<"none">>             *)
 vars == <<l, tr, loc, glo, issued, lastG, rq, bad>>
 Idle == [on |-> FALSE, n |-> 0, floor |-> [d \in DC |-> None], skip |-> FALSE, cur |-> None, est |-> None, round |-> 0,
-         reply |-> [d \in DC |-> None], got |-> {}, expect |-> <<"none">>]
+         reps |-> {}, got |-> {}, expect |-> <<"none">>]
 Init == l = 1 /\ tr = 0 /\ loc = [d \in DC |-> <<0, 0>>] /\ glo = <<0, 0>> /\ issued = [d \in DC |-> None] /\ lastG = None
         /\ rq = Idle /\ bad = {} /\ TLCSet(1, 0) /\ TLCSet(2, {})
 T2(x) == <<x[1], x[2]>>
@@ -67,27 +68,27 @@ Consume ==
                        ELSE B("RoundCarriesCollected", rq.expect[1] = "round" /\ rq.expect[2] = e.skip /\ rq.expect[3] = v)
             IN /\ rq' = [rq EXCEPT !.skip = e.skip, !.cur = v, !.est = IF fresh \/ (e.skip /\ ~rq.skip) THEN v ELSE @,
                                    !.round = IF fresh \/ (e.skip /\ ~rq.skip) THEN 1 ELSE @ + 1,
-                                   !.reply = [d \in DC |-> None], !.got = {}, !.expect = <<"none">>]
+                                   !.reps = {}, !.got = {}, !.expect = <<"none">>]
                /\ glo' = IF fresh THEN own ELSE glo
                /\ bad' = bad \cup b /\ UNCHANGED <<tr, loc, issued, lastG>>
        [] e.ev = "deliver" ->
-            LET d == e.dc
-                h == Handler(loc[d], rq.cur, rq.skip)
+            LET g == {e.dcs[i] : i \in 1..Len(e.dcs)}          \* the datacenters whose allocators the addressed member leads
+                h == Handler(loc, g, rq.cur, rq.skip)
                 r == T2(e.reply)
                 b == IF e.rpcerr THEN {} ELSE B("HandlerFollowsRule", r = h[2])
-                \* after a mismatch follow the code: a reply reveals the allocator's value
-                nl == IF e.rpcerr THEN loc[d] ELSE IF r = h[2] THEN h[1] ELSE IF r = None THEN TsMax(loc[d], rq.cur) ELSE r
-                rep == [rq.reply EXCEPT ![d] = IF e.lost \/ e.rpcerr THEN Lost ELSE r]
-                got == rq.got \cup {d}
-                rs == {rep[x] : x \in DC}
+                \* after a mismatch follow the code where the log tells: an accepted request raised the allocators
+                nl == [d \in DC |-> IF d \notin g \/ e.rpcerr THEN loc[d]
+                                    ELSE IF r = h[2] THEN h[1][d] ELSE IF r = None THEN TsMax(loc[d], rq.cur) ELSE loc[d]]
+                rs == rq.reps \cup {IF e.lost \/ e.rpcerr THEN Lost ELSE r}
+                got == rq.got \cup g
                 m == Collect(rq.cur, rs)
                 a == AfterSync(rq.est, m, rq.skip, rq.n)
                 ex == IF got # DC THEN <<"none">>
                       ELSE IF Lost \in rs THEN <<"fresh">>
                       ELSE IF rq.round < Rounds THEN <<"round", rq.skip, m>>
                       ELSE IF a[1] = "again" THEN <<"round", TRUE, a[2]>> ELSE <<"result", m>>
-            IN /\ loc' = [loc EXCEPT ![d] = nl]
-               /\ rq' = [rq EXCEPT !.reply = rep, !.got = got, !.expect = ex]
+            IN /\ loc' = nl
+               /\ rq' = [rq EXCEPT !.reps = rs, !.got = got, !.expect = ex]
                /\ bad' = bad \cup b /\ UNCHANGED <<tr, glo, issued, lastG>>
        [] e.ev = "global" ->
             LET v == T2(e.ts)
